@@ -501,10 +501,11 @@ def run_unlimited(case, tmp):
 def run_multi(case, tmp):
     da = core.env.import_dimarray()
     fs = case["file"]
-    paths = [os.path.join(tmp, "m0.nc")]
+    fnames = ["run_c.nc", "run_a.nc", "run_b.nc"]        # (deliberately not in lexicographic order)
+    paths = [os.path.join(tmp, fnames[0])]
     write_file(paths[0], fs)
     for j, o in enumerate(case["others"]):
-        p = os.path.join(tmp, "m%d.nc" % (j + 1))
+        p = os.path.join(tmp, fnames[j + 1])
         write_file(p, fs, relabel=o, base_shift=100 * (j + 1))
         paths.append(p)
     singles = [da.read_nc(p) for p in paths]
